@@ -71,6 +71,23 @@ Robustness round 4 (benign variants / mutants selftest/*/C06-r4-*): where a help
   names                a finding is reported under the pinned tree's name of a private function that was moved *and* re-declared
                        (free fn <-> associated fn: C06_helpers.baseline_names; other signature: name_by_role "the function that
                        builds the context's Target"); read_platform_env / the argv parsers are looked up the same way (find_fn)
+Robustness round 5 (benign variants / mutants selftest/*/C06-r5-*):
+  R1 hand-over         where the phase entry point no longer calls Buildpack::detect / build itself, the hand-over is the *effect*
+                       "detect / build is called" reached from it (lib/effects), with the context in the entry point's terms
+                       (parameters of the inner function replaced by what is passed); */unmodified covers the function of the call
+                       site and, at every level of the call chain, the locals handed on to the next level
+  R4 optional listing  an Option used as an iterator / matched with `if let Some` is "its payload when there is one"
+                       (C06_helpers.option_iter_norm / option_alternatives: `for e in maybe_listing.into_iter().flatten()`); flatten
+                       of an Option<listing> passes every entry (flatten of the listing itself still skips Err entries); new
+                       obligation in all-entries: a literal None of type Option<..ReadDir..> is written only where the listing has
+                       failed (absent_listing_problems) — otherwise the None would be a way to drop a listing that was read
+     listing-tolerance(-exact)   the workspace's not-found predicate counts as the NotFound decision; an edge saying that the read
+                       known to have failed succeeded (`other => Some(other?)` after `Err(e) if not_found(&e)`) is infeasible; a
+                       re-test of the same read's discriminant dominated by an earlier one (drop elaboration) opens no new arm;
+                       listing-tolerance also holds when, on the control flow, success is reachable from the failed-listing arm
+                       under — and only under — a kind-is-NotFound decision (was: one spelling of the Err arm)
+  R7                   a String buffer of read_toml_file itself filled by File::open(P)?.read_to_string(&mut buf)? before the parse
+                       is read as fs::read_to_string(P)? (C06_helpers.buffer_read: same conditions as for the private helper form)
 Not decided: equality of parsed TOML values with the document (toml crate), file contents.
 """
 from .lib.discard import result_fates, local_fates, verdict
@@ -197,11 +214,23 @@ def run(ctx, rep):
     for host, decl, adt in ((rd, 'libcnb::buildpack::Buildpack::detect', 'DetectContext'), (rb, 'libcnb::buildpack::Buildpack::build', 'BuildContext')):
         rep.analysed(host)
         cs = [c for c in host.calls if c.decl == decl]
+        hand = None
+        if len(cs) != 1:
+            # the phase entry point may hand its work on to a private function (`detect_with_descriptor(buildpack, args,
+            # app_dir, ..)`): the hand-over is the *effect* "Buildpack::detect / build is called" reached from the entry point,
+            # with the context in the entry point's terms (lib/effects: the inner function's parameters are replaced by what
+            # the entry point passes)
+            EH = Effects(prog, sl, vocab={decl: ('HAND_OVER', 1)})
+            hs = [e for e in EH.expand(host, 'may') if e.kind == 'HAND_OVER' and len(e.args) > 1]
+            if len(hs) == 1:
+                hand = hs[0]
+                cs = [hand.call]
+                rep.analysed(hand.call.fn)
         if len(cs) != 1:
             rep.unproven('R1', adt, host.file, 'call of %s not found' % decl)
             continue
         c = cs[0]
-        cv_raw = sl.operand(host, c.args[1])
+        cv_raw = hand.args[1] if hand is not None else sl.operand(host, c.args[1])
         cv = strip(cv_raw)
         if cv[0] != 'agg':
             # the struct literal may be written in a constructor-like private helper that the host hands the parts to
@@ -246,7 +275,15 @@ def run(ctx, rep):
         # entries, editing a path): the locals that carry the context's parts are never borrowed mutably
         from .lib.mir import op_place as _opl
         p0 = _opl(c.args[1])
-        muts = H.inplace_mutations(host, H.carried_locals_through(EF, host, [p0[0]], ctx_helpers), allow=filled) if p0 else ['context operand is not a place']
+        muts = H.inplace_mutations(c.fn, H.carried_locals_through(EF, c.fn, [p0[0]], ctx_helpers), allow=filled) if p0 else ['context operand is not a place']
+        if hand is not None:
+            # ... nor, at each level of the call chain down to the hand-over, what is passed on to the next level
+            from .lib.effects import Link as _Link0
+            for l_ in hand.chain:
+                if isinstance(l_, _Link0):
+                    starts_ = [_opl(a_)[0] for a_ in l_.call.args if _opl(a_)]
+                    muts.extend(x for x in H.inplace_mutations(l_.call.fn, H.carried_locals_through(EF, l_.call.fn, starts_, ctx_helpers), allow=filled)
+                                if x not in muts)
         rep.check(not muts, 'R1', adt + '/unmodified', c.where(), 'no part of the context is modified in place before the hand-over',
                   'an input is modified in place before it reaches %s: %s' % (adt, '; '.join(muts[:3])))
         # ---- R3 (per host: the Target handed to this phase) ------------------------------------------------
@@ -402,6 +439,30 @@ def run(ctx, rep):
             return all(p_.call.fn is not e_.call.fn or p_.call.bb not in e_.call.fn.reachable(e_.call.bb) for e_ in ins_effs)
         used_pushes = []
         cases4 = H.expand_collected(E, cases, push_effs, order_ok)
+        # an Option used as an iterator (`for entry in maybe_listing.into_iter().flatten()`) yields its payload when it is Some
+        # and nothing when it is None: the element of iterating `Some(x)` is x, a case over a literal None never runs
+        # (C06_helpers.option_iter_norm; whether the listing may be absent at all is the listing-tolerance obligation)
+        def _opt_norm(v_):
+            r_ = H.option_iter_norm(v_)
+            if r_ is not None and r_ == v_ and any(x_[0] == 'call' and x_[1] == 'std::iter::Iterator::next' and x_[2] and
+                                                   strip(x_[2][0])[0] == 'call' and strip(x_[2][0])[1] == 'std::iter::Iterator::next' for x_ in walk(v_)):
+                # an element used as an iterator whose Option-ness only shows once private helpers are transparent
+                # (`for e in list_dir(p)?.into_iter().flatten()`)
+                r2_ = H.option_iter_norm(H.norm(sl, sl.inline_deep(v_)))
+                if r2_ is not None:
+                    return H.norm(sl, r2_)
+            return r_
+
+        def _opt_norm_guards(gs_):
+            out_ = []
+            for cd_, views_, subj_ in gs_:
+                nv_ = [(_opt_norm(val_), oc_) for val_, oc_ in views_]
+                ns_ = _opt_norm(subj_) if subj_ is not None else None
+                out_.append((cd_, [(a_ if a_ is not None else views_[i_][0], oc_) for i_, (a_, oc_) in enumerate(nv_)],
+                             ns_ if ns_ is not None else subj_))
+            return out_
+        cases4 = [(H.option_iter_norm(k_), H.option_iter_norm(v_), gs_, u_) for k_, v_, gs_, u_ in cases4]
+        cases4 = [(H.norm(sl, k_), H.norm(sl, v_), _opt_norm_guards(gs_), u_) for k_, v_, gs_, u_ in cases4 if k_ is not None and v_ is not None]
         cases = [(k_, v_, gs_) for k_, v_, gs_, _u in cases4]
         for _k, _v, _g, us_ in cases4:
             used_pushes.extend(p_ for p_ in us_ if p_ not in used_pushes)
@@ -457,6 +518,16 @@ def run(ctx, rep):
                 undecided = True
             else:
                 probs.extend(x for x in pr if x not in probs)
+        # ... and an optional listing (`None` for the tolerated missing directory, iterated / matched as "the listing when there
+        # is one") is None only where the listing has failed: it is no way to drop a listing that was read
+        lfns = [pe] + list(prog.closures_of(pe))
+        for path_, g in sorted(prog.reach([pe]).items()):
+            if g.crate == 'libcnb' and g.vis != 'pub' and g not in lfns:
+                lfns.append(g)
+        lnames = {g.path for g in lfns if g.kind != 'Closure' and g is not pe}
+        ap, au = H.absent_listing_problems(E, lfns, lambda r_: r_[0] == 'call' and (r_[1] == 'std::fs::read_dir' or r_[1] in lnames))
+        probs.extend(x for x in ap if x not in probs)
+        undecided = undecided or au
         if undecided and not probs:
             rep.unproven('R4', 'all-entries', c.where(), 'the iteration that runs the insert has a shape that is not modelled')
         else:
@@ -582,16 +653,36 @@ def run(ctx, rep):
                 tol_ok = shape and (not is_nf) and through
         return tol_ok, detail
     tols = [listing_tolerance(g) for g in (listers or [pe])]
+    from . import layer_roles
+    nf_pred = layer_roles.roles(prog, sl).get('NOT_FOUND_PRED') or 'libcnb::util::is_not_found_error_kind'
     for g in listers:
         rep.analysed(g)
-    rep.check(all(t for t, _ in tols), 'R4', 'listing-tolerance', pw, 'a failed listing is tolerated only for ErrorKind::NotFound',
-              'listing error tolerance is not NotFound-only (%s)' % '; '.join(d_ for _, d_ in tols))
     # ... and NotFound is the *only* kind that is tolerated: from the arm where the listing (or the private helper doing the
     # listing) has failed, no success return is reachable except through a decision "kind is exactly NotFound"
     from .lib.effects import success_sites
     leaks, arms = [], 0
+    sem_tol = {}        # lister path -> the failed-listing arm of that function is tolerated exactly under "kind is NotFound"
+    def _once(g_, r_):
+        # a call value that names one execution of its call site (the site is in g_ and not on a cycle)
+        site_ = r_[3] if r_[0] == 'call' and len(r_) > 3 else None
+        return bool(site_) and site_[0] == g_.path and not g_.in_loop(site_[1])
     for g in [h for h in pfns if h.path in via_lister]:
         ok_bbs = {st.bb for st in success_sites(g)}
+        # the switches that decide "this read failed", per read: a later re-test of the same (once-executed) read's
+        # discriminant — drop elaboration, `other?` in a catch-all arm — that is dominated by an earlier one opens no new
+        # arm: whoever gets there with the read failed came through the earlier switch's failure edge, and the walk from
+        # that edge covers everything behind it
+        fail_sw = {}
+        for bi in range(len(g.blocks)):
+            t = g.blocks[bi]['t']
+            if t['t'] != 'switch':
+                continue
+            for tb in set([x for _, x in t['targets']] + [t['else']]):
+                cd = H.edge_cond(g, bi, tb, sl)
+                if cd is not None and cd.kind == 'variant' and cd.subject is not None and cd.outcome in (frozenset({'Err'}), frozenset({'Break'})):
+                    r_ = H.success_root(cd.subject)
+                    if _once(g, r_):
+                        fail_sw.setdefault(r_, set()).add(bi)
         for bi in range(len(g.blocks)):
             t = g.blocks[bi]['t']
             if t['t'] != 'switch':
@@ -604,7 +695,28 @@ def run(ctx, rep):
                 direct = cd.outcome == frozenset({'Err'}) and strip(cd.subject)[0] == 'call' and strip(cd.subject)[1] == 'std::fs::read_dir'
                 if direct or (root[0] == 'call' and (root[1] == 'std::fs::read_dir' or root[1] in via_lister)):
                     arms += 1
-                    leaks.extend('%s bb%d' % (g.path.split('::')[-1], b_) for b_ in H.tolerated_without_not_found(g, sl, tb, ok_bbs))
+                    if any(b2 != bi and g.dominates(b2, bi) for b2 in fail_sw.get(root, ())):
+                        continue
+                    # (the read that has failed here cannot have succeeded further down: `other => Some(other?)` after an
+                    # `Err(e) if not_found(&e)` arm only ever propagates)
+                    failed = root if _once(g, root) else None
+                    cuts = []
+                    lk = H.tolerated_without_not_found(g, sl, tb, ok_bbs, pred=nf_pred, failed=failed, cuts=cuts)
+                    leaks.extend('%s bb%d' % (g.path.split('::')[-1], b_) for b_ in lk)
+                    if direct or (root[0] == 'call' and root[1] == 'std::fs::read_dir'):
+                        # semantic reading of "tolerated only for NotFound" for this lister: the missing directory is
+                        # tolerated (beyond a "kind is NotFound" decision taken in this arm a success is reachable) and
+                        # nothing else is (no success without that decision)
+                        tolerated = any(ok_bbs & set(g.reachable(c_[1])) | ({c_[1]} & ok_bbs) for c_ in cuts)
+                        st_ = sem_tol.setdefault(g.path, [False, False])
+                        st_[0] = st_[0] or (tolerated and cd.outcome == frozenset({'Err'}))
+                        st_[1] = st_[1] or bool(lk)
+    # listing-tolerance: the spelling `Err(err) => if err.kind() != NotFound { return Err(err) }` (listing_tolerance) or, stated on
+    # the control flow, "from the failed-listing arm success is reachable under, and only under, a kind-is-NotFound decision"
+    tol_fns = listers or [pe]
+    rep.check(all(t or sem_tol.get(g_.path, [False, True]) == [True, False] for (t, _), g_ in zip(tols, tol_fns)), 'R4', 'listing-tolerance', pw,
+              'a failed listing is tolerated only for ErrorKind::NotFound',
+              'listing error tolerance is not NotFound-only (%s)' % '; '.join(d_ for _, d_ in tols))
     if arms == 0:
         # the listing's failure is not matched anywhere (`?` / combinators): nothing is tolerated here;
         # whether NotFound is tolerated at all is the obligation above
@@ -742,13 +854,40 @@ def run(ctx, rep):
         doc = core(tv)
         parsed = propagated(tv) and doc[0] == 'call' and doc[1] in ('toml::from_str', 'toml::de::from_str') and len(doc[2]) == 1
         text = H.same_string(doc[2][0]) if parsed else ('unknown',)
+        # ... as is a String buffer of read_toml_file itself that is filled in place the same way (in-place filling does not
+        # show in symbolic values: the buffer reads `String::new()`), provided the read comes before the parse
+        t0 = strip(text)
+        if parsed and t0[0] == 'call' and len(t0) > 3 and t0[3] and len(doc) > 3 and doc[3] and doc[3][0] == tf.path:
+            br = H.inline_buffer_reads(prog, sl, tf).get(tuple(t0[3]))
+            if br is not None and br[0].bb != doc[3][1] and tf.dominates(br[0].bb, doc[3][1]):
+                text = ('unwrap', ('call', 'std::fs::read_to_string', (br[1],), (tf.path, br[0].bb)))
         rd_ = core(text)
+        # std::io::read_to_string(File::open(P)?) is the same read (the failure to open handed on)
+        iop = H.io_read_to_string_path(rd_)
+        if iop is not None:
+            rd_ = ('call', 'std::fs::read_to_string', (iop,), rd_[3] if len(rd_) > 3 else None)
         if rd_[0] == 'call' and rd_[1] in equiv and equiv[rd_[1]] < len(rd_[2]):
             rd_ = ('call', 'std::fs::read_to_string', (rd_[2][equiv[rd_[1]]],), rd_[3] if len(rd_) > 3 else None)
         ok = parsed and propagated(text) and rd_[0] == 'call' and rd_[1] == 'std::fs::read_to_string' and len(rd_[2]) == 1 \
             and H.same_string(strip(rd_[2][0]))[0] == 'param' and H.same_string(strip(rd_[2][0]))[1] == tf.path
-        rep.check(ok, 'R7', 'read_toml_file', tw, 'read_toml_file(P) = toml::from_str(&fs::read_to_string(P)?)?',
-                  'read_toml_file does not parse exactly the text of the file it is given: ' + vstr(tv)[:160])
+        # the text is a buffer of read_toml_file that something fills in place which is not a read this rule knows how to read
+        # (neither File::open(P)?.read_to_string(&mut buf)? nor that with its error dropped): not understood, rather than wrong
+        not_understood = None
+        if not ok and parsed:
+            for x_ in walk(text):
+                if not (x_[0] == 'call' and x_[1] in H._NEW_STRING + H._NEW_VEC and len(x_) > 3 and x_[3] and x_[3][0] == tf.path):
+                    continue
+                bc_ = tf.call_at(x_[3][1])
+                fl_ = H.buffer_fillers(tf, bc_.dest[0]) if bc_ is not None and bc_.dest and len(bc_.dest) == 1 else []
+                if fl_ is None or any(c_.indirect or c_.decl != 'std::io::Read::read_to_string' for c_, _ai in fl_):
+                    not_understood = 'the parsed text is a buffer filled in place by %s' % (
+                        sorted({(c_.decl or c_.name or '?') for c_, _ai in fl_}) if fl_ else 'code that is not followed')
+                    break
+        if not_understood:
+            rep.unproven('R7', 'read_toml_file', tw, not_understood + ': cannot tell that it is the text of the file given')
+        else:
+            rep.check(ok, 'R7', 'read_toml_file', tw, 'read_toml_file(P) = toml::from_str(&fs::read_to_string(P)?)?',
+                      'read_toml_file does not parse exactly the text of the file it is given: ' + vstr(tv)[:160])
     # ---- R8 ------------------------------------------------------------------------------------------
     # what "parsed" means for the plan and the store (derived Deserialize impls, read off the generated code): the keys of
     # the spec map to the same-named fields, metadata is an arbitrary TOML table, and a key the type cannot represent is an
